@@ -101,8 +101,9 @@ def gen_cfg(rng, max_vars=4, max_terms=3, max_prods=7, max_body=4, profile=None,
         start = "Z"          # start symbol without productions, not among the heads
     mode = "plain" if strings_only else rng.pick(HASH_MODES)
     valmode = "str" if mode == "plain" else "V"
-    if not strings_only and not reserved and rng.chance(0.06):
-        mode, valmode = "plain", "mixed"
+    if not strings_only and not reserved and rng.chance(0.1):
+        # value kinds other than strings / V objects: see val()
+        mode, valmode = "plain", rng.pick(["mixed", "mixed", "binint", "tup", "ivar", "pvar", "mixed2"])
     names = ["N:" + x for x in sorted(set(vs + ts + [start, FOREIGN]))]
     hashes = assign_hashes(rng, names, mode)
     # in part of the cases one variable carries the same *value* as a terminal (they stay two symbols of the grammar)
